@@ -569,7 +569,7 @@ class NP(_Stub):
     def sort(self, x):
         raise OutOfReach("np.sort")
 
-    def unique(self, x):
+    def unique(self, x, *a, **kw):
         raise OutOfReach("np.unique")
 
 
